@@ -404,13 +404,18 @@ class ProgGen:
             m = r.randrange(8)
             self.count("malformed_inst_%d" % m)
             if m == 0:      # hole in the operand list
-                if len(ops) >= 2:
+                if len(ops) >= 5 and r.random() < 0.6:
+                    ops[len(ops) - 2] = [0, 0, 0, 0]          # the prefix stays a form of its own (AArch64 register lists): wrong bytes, not an error
+                elif len(ops) >= 2:
                     ops[r.randrange(len(ops) - 1)] = [0, 0, 0, 0]
             elif m == 1:    # operand beyond a hole in the extended part
                 if len(ops) <= 3:
+                    # mostly a copy of the form's last operand: for register-list forms (AArch64 tbl) every prefix is a form of its own
+                    x = list(ops[-1]) if len(ops) == 3 and r.random() < 0.7 else list(forms[2]["ops"][0][1])
                     while len(ops) < 3:
                         ops.append([0, 0, 0, 0])
-                    ops += [[0, 0, 0, 0], list(forms[2]["ops"][0][1])]
+                    # the empty slot at index 3 (operand in slot 4) or at index 4 (operands in slots 3 and 5)
+                    ops += [[0, 0, 0, 0], x] if r.random() < 0.5 else [list(x), [0, 0, 0, 0], list(x)]
             elif m == 2:    # random option bits
                 opts = r.getrandbits(32)
             elif m == 3:    # operands of another form
